@@ -157,7 +157,7 @@ func (h histSpec) String() string {
 
 func main() {
 	run := report.New("C08", "fault_enumeration")
-	run.Rule("history = 2..4 reader clients doing lookups of version-identifying probe serials (common, never, unique-per-version) concurrently with one refresher that steps through a sequence of refresh outcomes {ok, http500, garbage, bad signature, unknown signer, temporary-store creation error, insert error at step 1/mid/last} (all sequences of length <=2, sampled length 3; refused / truncated download sampled; thorough: length <=3 exhaustive + lengths 4..6 sampled, every history under six schedules) on both backends, with seeded yields at the swap/lookup hook points; every call and return is stamped at the client boundary; oracle = linearizability of the history w.r.t. a single register holding the version in force (refresh ok => target, refresh err => unchanged, outcome not returned => either; lookup legal iff it matches the register), checked by porcupine; a lookup returning an error is reported separately; non-trivial = history in which at least one lookup overlapped a refresh call; distinct = history descriptor")
+	run.Rule("history = 2..4 reader clients doing lookups of version-identifying probe serials (common, never, unique-per-version) concurrently with one refresher that steps through a sequence of refresh outcomes {ok, http500, garbage, bad signature, unknown signer, temporary-store creation error, insert error at step 1/mid/last} (all sequences of length <=2, sampled length 3; refused / truncated download sampled; thorough: length <=3 exhaustive + lengths 4..6 sampled, every history under six schedules) on both backends, with seeded yields at the swap/lookup hook points; every call and return is stamped at the client boundary; oracle = linearizability of the history w.r.t. a single register holding the version in force (refresh ok => target, refresh err => unchanged, outcome not returned => either; lookup legal iff it matches the register), checked by porcupine; a lookup returning an error is reported separately; plus scenarios with two overlapping update passes of one checker (slow first download of v1, v2 published meanwhile): once v2 was observed no later lookup sees an older list, and v2 is in force when both have returned; non-trivial = history in which at least one lookup overlapped a refresh call; distinct = history descriptor")
 	run.Assume("one location, so no partitioning; histories <= 450 operations, checker timeout 60 s => Unknown is inconclusive", "monotonic stamps from one clock in the harness process")
 	scratch, _ := report.Scratch("C08")
 	sut.QuietStderr(filepath.Join(scratch, "stderr.log"))
@@ -243,6 +243,19 @@ func main() {
 			continue
 		}
 		runHistory(run, w, hs, scratch, i)
+	}
+	// overlapping update passes of one checker
+	nov := 24
+	if run.Thorough() {
+		nov = 240
+	}
+	orng := rand.New(rand.NewSource(run.Seed ^ 0x0e12))
+	for i := 0; i < nov; i++ {
+		sd := orng.Int63()
+		if i%sn != si {
+			continue
+		}
+		overlapScenario(run, w, []string{"memory", "disk"}[i%2], sd, scratch, i)
 	}
 	run.FinishShard()
 }
